@@ -3,7 +3,7 @@
 P=$1; PATCH=$2; TIER=${3:-quick}
 git -C /repo status --porcelain | grep -q . && { echo "/repo not clean"; exit 2; }
 git -C /repo apply "$PATCH" || { echo "PATCH DOES NOT APPLY"; exit 2; }
-if [ "$TIER" = thorough ]; then /verif/check "$P" --thorough > /tmp/try_seed.log 2>&1; else /verif/check "$P" > /tmp/try_seed.log 2>&1; fi
+if [ "$TIER" = thorough ]; then /verif/check "$P" --tier thorough > /tmp/try_seed.log 2>&1; else /verif/check "$P" > /tmp/try_seed.log 2>&1; fi
 rc=$?
 git -C /repo checkout -- . ; git -C /repo clean -fdq
 grep -E "VIOLATION|KNOWN-FINDING|PASS|BROKEN" /tmp/try_seed.log | cut -c1-400 | head -8
